@@ -267,6 +267,32 @@ pub fn eval(toks: &[&str]) -> Option<String> {
             }
             Some(format!("[{}]", outs.join(",")))
         }
+        "xcops" => {
+            // history of queries on clones of ONE wcet::ExtrapolatingCurve sharing the cache
+            let w = t.list_u64()?;
+            let m = t.usize()?;
+            let base = response_time_analysis::wcet::ExtrapolatingCurve::new(
+                response_time_analysis::wcet::Curve::new(svcs(&w)),
+            );
+            let clones: Vec<response_time_analysis::wcet::ExtrapolatingCurve> =
+                (0..3).map(|_| base.clone()).collect();
+            let mut outs: Vec<u64> = vec![];
+            for k in 0..m {
+                let c = &clones[k % 3];
+                match t.next()? {
+                    "coj" => {
+                        let n = t.usize()?;
+                        outs.push(u64::from(c.cost_of_jobs(n)));
+                    }
+                    "lw" => {
+                        let n = t.usize()?;
+                        outs.push(u64::from(c.least_wcet(n)));
+                    }
+                    _ => return None,
+                }
+            }
+            Some(list_str(&outs))
+        }
         "maxrt" => {
             let n = t.usize()?;
             let mut v = vec![];
